@@ -19,8 +19,16 @@ Fixpoint l_del (g : list (N * lrec)) (c : N) : list (N * lrec) :=
 Definition l_set (g : list (N * lrec)) (c : N) (d : lrec) : list (N * lrec) := (c, d) :: l_del g c.
 
 (* the promise applies: sane durations, cache in use, the gap (plus the codec's
-   resolution) below SessionExpiry, peer and agent acceptable *)
+   resolution) below SessionExpiry, and the request comes from the same peer with
+   the same agent as the last accepted one *)
 Definition live_cond (cf : cfg) (t : Z) (x : lrec) (a : addr) (u : N) : bool :=
+  negb (c_maxcache cf =? 0)%Z && (0 <=? c_expiry cf)%Z && (0 <=? c_grace cf)%Z && (c_idexpiry cf <=? max64)%Z &&
+  (t - fst (fst x) + StartLaws4.slack cf <? c_expiry cf)%Z &&
+  addr_eqb (snd (fst x)) a && N.eqb (snd x) u.
+
+(* the variant that only asks for a peer and agent that Start's rules accept
+   relative to the last accepted request's (refuted below) *)
+Definition live_cond_rules (cf : cfg) (t : Z) (x : lrec) (a : addr) (u : N) : bool :=
   negb (c_maxcache cf =? 0)%Z && (0 <=? c_expiry cf)%Z && (0 <=? c_grace cf)%Z && (c_idexpiry cf <=? max64)%Z &&
   (t - fst (fst x) + StartLaws4.slack cf <? c_expiry cf)%Z &&
   ip_ok (c_acceptip cf) (snd (fst x)) a && ua_ok (c_acceptua cf) (snd x) u.
@@ -39,13 +47,14 @@ Definition served (w : world) (r : reqstep) : bool :=
 
 (* the ghost: current configuration, last accepted request per client. Cache
    loss voids the promises (C09: it costs the access times). *)
-Definition l_step (cl : cfg * list (N * lrec)) (w : world) (h : hop) (o : obs) : bool * (cfg * list (N * lrec)) :=
+Definition l_step (cond : cfg -> Z -> lrec -> addr -> N -> bool)
+           (cl : cfg * list (N * lrec)) (w : world) (h : hop) (o : obs) : bool * (cfg * list (N * lrec)) :=
   let '(cf, lg) := cl in
   match h with
   | HReq r =>
     let c := rq_client r in
     let ok := match l_get lg c with
-              | Some x => if live_cond cf (now (w_st w)) x (rq_addr r) (rq_ua r) then served w r else true
+              | Some x => if cond cf (now (w_st w)) x (rq_addr r) (rq_ua r) then served w r else true
               | None => true
               end in
     let lg' := match ob_start o, ob_jar o with
@@ -59,28 +68,39 @@ Definition l_step (cl : cfg * list (N * lrec)) (w : world) (h : hop) (o : obs) :
   | _ => (true, cl)
   end.
 
-Fixpoint l_run (cl : cfg * list (N * lrec)) (w : world) (hs : list hop) : bool :=
+Fixpoint l_run (cond : cfg -> Z -> lrec -> addr -> N -> bool)
+         (cl : cfg * list (N * lrec)) (w : world) (hs : list hop) : bool :=
   match hs with
   | [] => true
   | h :: t => let '(w', o) := step w h in
-              let '(ok, cl') := l_step cl w h o in ok && l_run cl' w' t
+              let '(ok, cl') := l_step cond cl w h o in ok && l_run cond cl' w' t
   end.
 
 (* the clock does not run backwards *)
 Definition mono_time (hs : list hop) : bool :=
   forallb (fun h => match h with HWait d => (0 <=? d)%Z | _ => true end) hs.
 
-Definition codec_kept (c : cfg) (hs : list hop) : bool :=
-  forallb (fun h => match h with HSetCfg c' => Bool.eqb (c_json c') (c_json c) | _ => true end) hs.
+(* configuration changes keep the codec and the peer/agent rules *)
+Definition rules_kept (c : cfg) (hs : list hop) : bool :=
+  forallb (fun h => match h with
+                    | HSetCfg c' => Bool.eqb (c_json c') (c_json c) && (c_acceptip c' =? c_acceptip c)%Z &&
+                                    Bool.eqb (c_acceptua c') (c_acceptua c)
+                    | _ => true
+                    end) hs.
 
 (* C01, liveness half. NOT PROVED along histories (it needs, for every hop, that
-   the access time, peer and agent recorded under a client's ID are those of its
-   last accepted request or later — a frame argument like the one for the
-   content in C01Hist*.v, about r_access/r_ip/r_ua); tested below. What is proved
-   is in C01Live2.v. *)
+   the access time recorded under a client's ID is that of its last accepted
+   request or later, and that the recorded peer and agent accept the last accepted
+   request's — a frame argument like the one for the content in C01Hist*.v, about
+   r_access/r_ip/r_ua); tested below. What is proved is in C01Live2.v. *)
 Definition C01_liveness_statement : Prop :=
-  forall c hs, forallb (c01_hop false) hs = true -> codec_kept c hs = true -> mono_time hs = true ->
-    l_run (c, []) (mkWorld (init_st c) []) hs = true.
+  forall c hs, forallb (c01_hop false) hs = true -> rules_kept c hs = true -> mono_time hs = true ->
+    l_run live_cond (c, []) (mkWorld (init_st c) []) hs = true.
+
+(* the variant with Start's peer/agent rules in place of "same peer, same agent" *)
+Definition C01_liveness_rules_statement : Prop :=
+  forall c hs, forallb (c01_hop false) hs = true -> rules_kept c hs = true -> mono_time hs = true ->
+    l_run live_cond_rules (c, []) (mkWorld (init_st c) []) hs = true.
 
 (* --- tests --- *)
 Definition rq' (c : N) (a : addr) (u : N) (create : bool) (script : list sop) : hop :=
@@ -110,13 +130,36 @@ Definition cfL (idx mx : Z) (js : bool) : cfg :=
 Example C01_liveness_tests :
   forallb (c01_hop false) hist_live = true /\ mono_time hist_live = true /\
   forallb (fun x : Z * Z * bool =>
-             l_run (cfL (fst (fst x)) (snd (fst x)) (snd x), [])
+             l_run live_cond (cfL (fst (fst x)) (snd (fst x)) (snd x), [])
                    (mkWorld (init_st (cfL (fst (fst x)) (snd (fst x)) (snd x))) []) hist_live)
           [(0, 1, false); (0, 10, true); (max64, 1, true); (max64, -1, false);
            (300000000000, 1, false); (300000000000, 10, true); (max64, 0, false)]%Z = true /\
-  (* the promise was due at 7 of the 15 requests, and kept; the last request
-     comes with another agent and is refused *)
+  (* the last request comes with another agent and is refused *)
   map ob_res (run (cfL max64 1 true) hist_live) =
     [RSess; RSess; RVoid; RSess; RVoid; RSess; RVoid; RVoid; RSess; RSess; RVoid; RSess; RVoid; RVoid; RSess;
      RVoid; RSess; RSess; RVoid; RVoid; RSess; RSess; RSess; RVoid; RVoid; RSess; RNone].
+Proof. vm_compute. repeat split. Qed.
+
+(* The variant with Start's own rules is false of the model when the cache is
+   small: with MaxSessionCacheSize = 1 a rotation evicts the session's object
+   while RegenerateID caches the replaced-ID record, so the peer and agent that
+   Start notes after the rotation reach neither cache nor store; the next
+   request is judged against the peer before. Here: first octet must agree;
+   10.0.0.1, then an address Start's pattern does not match (accepted, rotation),
+   then 20.0.0.1 — acceptable relative to the unmatched address, refused
+   relative to 10.0.0.1. With cache size 10 the same history is served. *)
+Definition cfR (mx : Z) : cfg := mkCfg 1000 0 100 1000 mx 2 true false.
+Definition hist_R : list hop :=
+  [rq' 1 (V4 10 0 0 1 80) 7 true []; HWait 10; rq' 1 (AOther 5) 7 false []; HWait 10;
+   rq' 1 (V4 20 0 0 1 80) 7 false []].
+
+Theorem liveness_rules_refuted : ~ C01_liveness_rules_statement.
+Proof. intro H. specialize (H (cfR 1) hist_R eq_refl eq_refl eq_refl). vm_compute in H. discriminate. Qed.
+
+Example liveness_rules_cache10 :
+  l_run live_cond_rules (cfR 10, []) (mkWorld (init_st (cfR 10)) []) hist_R = true /\
+  map ob_res (run (cfR 10) hist_R) = [RSess; RVoid; RSess; RVoid; RSess] /\
+  map ob_res (run (cfR 1) hist_R) = [RSess; RVoid; RSess; RVoid; RNone] /\
+  (* "same peer, same agent" promises nothing for the third request *)
+  l_run live_cond (cfR 1, []) (mkWorld (init_st (cfR 1)) []) hist_R = true.
 Proof. vm_compute. repeat split. Qed.
